@@ -51,6 +51,19 @@ class _Desugar(ast.NodeTransformer):
         return new
 
     def visit_Assign(self, node):
+        # a, b, c = [f(k) for k in ('x', 'y', 'z')]   ->   a = f('x'); b = f('y'); c = f('z')
+        if self.depth and len(node.targets) == 1 and isinstance(node.targets[0], (ast.Tuple, ast.List)) and isinstance(node.value, (ast.ListComp, ast.GeneratorExp)) and \
+                len(node.value.generators) == 1:
+            gen = node.value.generators[0]
+            tg = node.targets[0]
+            if not gen.ifs and not gen.is_async and isinstance(gen.target, ast.Name) and isinstance(gen.iter, (ast.Tuple, ast.List)) and len(gen.iter.elts) == len(tg.elts) and \
+                    all(isinstance(e, ast.Constant) for e in gen.iter.elts) and all(isinstance(t, ast.Name) for t in tg.elts):
+                import copy
+                out = []
+                for t, k in zip(tg.elts, gen.iter.elts):
+                    elt = _SubstName(gen.target.id, k).visit(copy.deepcopy(node.value.elt))
+                    out.append(ast.copy_location(ast.Assign(targets=[t], value=elt, type_comment=None), node))
+                return out
         if len(node.targets) == 1 and isinstance(node.targets[0], (ast.Name, ast.Attribute, ast.Subscript)):
             import copy
             return self._split(node, node.value, lambda v: ast.Assign(targets=[copy.deepcopy(node.targets[0])], value=v, type_comment=None))
@@ -58,6 +71,17 @@ class _Desugar(ast.NodeTransformer):
 
     def visit_Return(self, node):
         return self._split(node, node.value, lambda v: ast.Return(value=v))
+
+
+class _SubstName(ast.NodeTransformer):
+    def __init__(self, name, value):
+        self.name, self.value = name, value
+
+    def visit_Name(self, node):
+        if node.id == self.name and isinstance(node.ctx, ast.Load):
+            import copy
+            return ast.copy_location(copy.deepcopy(self.value), node)
+        return node
 
 
 # methods whose body is analysed with the helper methods of their own class expanded in place (extract-method refactorings of these
